@@ -315,3 +315,33 @@ package vm
 //@   case OpJumpBackward: ensures[ip] vm.ip == head(vm.ip) + 3 - (int(vm.bytecode[head(vm.ip)+1]) + 256*int(vm.bytecode[head(vm.ip)+2]))
 //@   case OpJumpIfTrue: ensures[ip] vm.ip == head(vm.ip) + 3 || vm.ip == head(vm.ip) + 3 + int(vm.bytecode[head(vm.ip)+1]) + 256*int(vm.bytecode[head(vm.ip)+2])
 //@   case OpJumpIfFalse: ensures[ip] vm.ip == head(vm.ip) + 3 || vm.ip == head(vm.ip) + 3 + int(vm.bytecode[head(vm.ip)+1]) + 256*int(vm.bytecode[head(vm.ip)+2])
+
+// value of the instruction's result (C01): what is pushed is the documented operation applied to the
+// operands in the order they were pushed; everything below the operands is untouched.
+//@   define hs(k) := head(vm.stack[len(vm.stack) - k])
+//@   define ts(k) := vm.stack[len(vm.stack) - k]
+//@   case OpTrue: ensures[value] ts(1) == boolv(true)
+//@   case OpFalse: ensures[value] ts(1) == boolv(false)
+//@   case OpNil: ensures[value] ts(1) == nilv()
+//@   case OpPush: ensures[value] ts(1) == vm.constants[int(vm.bytecode[head(vm.ip)+1]) + 256*int(vm.bytecode[head(vm.ip)+2])]
+//@   case OpRot: ensures[value] ts(1) == hs(2) && ts(2) == hs(1)
+//@   case OpNot: ensures[value] ts(1) == boolv(!boolof(hs(1)))
+//@   case OpNegate: ensures[value] ts(1) == res("vm.negate", hs(1))
+//@   case OpEqual: ensures[value] ts(1) == res("vm.equal", hs(2), hs(1))
+//@   case OpEqualInt: ensures[value] ts(1) == boolv(intof(hs(2)) == intof(hs(1)))
+//@   case OpEqualString: ensures[value] ts(1) == boolv(strof(hs(2)) == strof(hs(1)))
+//@   case OpIn: ensures[value] ts(1) == boxed(res("vm.in", hs(2), hs(1)))
+//@   case OpLess: ensures[value] ts(1) == res("vm.less", hs(2), hs(1))
+//@   case OpMore: ensures[value] ts(1) == res("vm.more", hs(2), hs(1))
+//@   case OpLessOrEqual: ensures[value] ts(1) == res("vm.lessOrEqual", hs(2), hs(1))
+//@   case OpMoreOrEqual: ensures[value] ts(1) == res("vm.moreOrEqual", hs(2), hs(1))
+//@   case OpAdd: ensures[value] ts(1) == res("vm.add", hs(2), hs(1))
+//@   case OpSubtract: ensures[value] ts(1) == res("vm.subtract", hs(2), hs(1))
+//@   case OpMultiply: ensures[value] ts(1) == res("vm.multiply", hs(2), hs(1))
+//@   case OpDivide: ensures[value] ts(1) == res("vm.divide", hs(2), hs(1))
+//@   case OpModulo: ensures[value] ts(1) == res("vm.modulo", hs(2), hs(1))
+//@   case OpExponent: ensures[value] ts(1) == boxed(res("vm.exponent", hs(2), hs(1)))
+//@   case OpIndex: ensures[value] ts(1) == res("vm.fetch", hs(2), hs(1), false)
+//@   case OpSlice: ensures[value] ts(1) == res("vm.slice", hs(3), hs(1), hs(2))
+//@   case OpLen: ensures[value] ts(1) == boxed(res("vm.length", hs(1))) && ts(2) == hs(1)
+//@   case OpCast: ensures[value] ts(1) == boxed(res("vm.toInt64", hs(1))) || ts(1) == boxed(res("vm.toFloat64", hs(1))) || len(vm.stack) == head(len(vm.stack))
